@@ -13,12 +13,13 @@ VLV(limbs) == FromLimbs(limbs, IF Len(limbs) = 5 THEN VShifts51 ELSE VShifts255)
 LaneVals(v) == [i \in 1..4 |-> VLV(v[i].limbs)]
 LanesAre(v, x) == \A i \in 1..4 : v[i].bytes = x[i] /\ VLV(v[i].limbs) = x[i]
 
-VecOps == {"vec.new", "vec.op1", "vec.op2", "vec.mul_consts"}
+VecOps == {"vec.new", "vec.from_raw", "vec.op1", "vec.op2", "vec.mul_consts"}
 VecExpected(e) ==
   LET o == e.obs
       a == IF Len(o.ins) >= 1 THEN LaneVals(o.ins[1]) ELSE <<>>
       b == IF Len(o.ins) >= 2 THEN LaneVals(o.ins[2]) ELSE <<>>
   IN CASE e.op = "vec.new" -> [i \in 1..4 |-> VLV(o.lanes_in[i])]
+       [] e.op = "vec.from_raw" -> [i \in 1..4 |-> VLV(e.lanes[i])]
        [] e.op = "vec.mul_consts" -> [i \in 1..4 |-> FMul(a[i], BMod(BN(e.c[i], LEN + 4), P))]
        [] e.op = "vec.op1" ->
            (CASE e.f = "reduce" -> a
@@ -143,11 +144,11 @@ ConstJudge(e) ==
             /\ Cardinality({t[i].c : i \in 1..8}) = 8,
             "public constants">>
   ELSE <<FALSE, "unknown">>
-ConstOps == {"const.dump", "const.table_entry", "const.odd_entry", "const.vec_odd_entry", "const.public", "vec.cached", "vec.available"}
+ConstOps == {"chk.formulas", "const.dump", "const.table_entry", "const.odd_entry", "const.vec_odd_entry", "const.public", "vec.cached", "vec.available"}
 ConstStep ==
   /\ l <= Len(Rec) /\ Rec[l].op \in ConstOps
   /\ LET e == Rec[l] IN
-       IF e.op = "vec.available" THEN Note(NoPanic(e), e, "panic")
+       IF e.op \in {"vec.available", "chk.formulas"} THEN Note(NoPanic(e), e, IF NoPanic(e) THEN "" ELSE e.panic)
        ELSE LET j == ConstJudge(e) IN Note(j[1], e, j[2])
   /\ l' = l + 1 /\ UNCHANGED regs
 =============================================================================
